@@ -44,6 +44,7 @@ def _rules():
         ("explanations: the lazy element reason ranges over every position", C17.l19),
         ("explanations: lazy explanations do not read the current domains", C17.l5),
         ("explanations: WITNESS-POINT of pointwise hole explanations", C08.h11),
+        ("explanations: extend_and_remove_duplicates is an opaque set union", C17.l21),
     ]
 
 
